@@ -217,6 +217,19 @@ pub fn run(run: &mut Run) {
             }
         }
     }
+    // programs from the shape-fault families that the compiler may or may not accept (break / continue
+    // in every composed context, closures and pure closures included): whatever is accepted must load
+    {
+        use crate::engines::faults as fl;
+        let snips: Vec<fl::Snip> = fl::c05_snips().into_iter().filter(|s| matches!(s.kind, fl::Kind::SNoLoop)).collect();
+        let fcases = fl::enumerate(&snips, if thorough { 3 } else { 2 }, &|_, _| true);
+        let prelude = fl::c05_prelude();
+        for c in &fcases {
+            let (fp, tp) = fl::programs(&snips, &prelude, c);
+            cases.push(("break-continue-placement".into(), print_program(&fp).text, true, None, vec![]));
+            cases.push(("break-continue-placement".into(), print_program(&tp).text, true, None, vec![]));
+        }
+    }
     let stop = AtomicBool::new(false);
     let _ = &stop;
     let accs = crate::pool::par_items(&cases, 8, |_| Stats::new(), |acc, i, (fam, text, no_std, want, preds)| {
